@@ -824,6 +824,13 @@ class ConsumerMdib(mdibbase.MdibBase):
                                         state_container.DescriptorHandle,
                                     )
                             if old_state_container is not None:
+                                if state_container.StateVersion < old_state_container.StateVersion:
+                                    # e.g. context states were read (GetContextStates) after the mdib itself
+                                    self._logger.warning(  # noqa: PLE1205
+                                        'process_incoming_descriptors: state "{}" is older than the one in mdib, ignored',
+                                        state_container.DescriptorHandle,
+                                    )
+                                    continue
                                 old_state_container.update_from_other_container(state_container)
                                 my_multi_key.update_object(old_state_container)
 
